@@ -375,6 +375,12 @@ def gen_inputs(tier, rng):
                "data": [(0.0 if rng.random() < 0.1 else rnd_val(rng) * 2.0 ** e) for _ in range(n)],
                "noise": [rng.choice(NOISE) for _ in range(n)], "model": [rnd_val(rng) * 2.0 ** e for _ in range(n)],
                "wrap": bool(two_d and rng.random() < 0.4)}
+    # ---- arbitrary preloaded regularization matrices / log-determinants
+    for _ in range(300 if big else 40):
+        iv = gen_inv(rng, rng.choice(["all", "partial", "partial", "none"]))
+        tot = len(iv["s"])
+        yield {"op": "invp", "inv": iv, "pre": {"H": spd(rng, tot) if rng.random() < 0.8 else None,
+                                                 "ldr": rng.randint(-40, 40) / 8.0 if rng.random() < 0.5 else None}}
     # ---- noise covariance, interferometer (complex) fits, the complex / covariance fit_util functions on ndarrays
     for _ in range(300 if big else 50): yield gen_cov(rng)
     for _ in range(300 if big else 50): yield gen_vis(rng)
@@ -790,6 +796,43 @@ def run_inv(inp):
     return {"coq": coq, "out": o, "py_ok": py_ok, "nontrivial": True, "detail": "; ".join(detail) or None,
             "kind": "inv/" + inv_kind(iv) + ("/preloads" if pre is not None else "")}
 
+def cpre(pre):
+    H = "None" if pre["H"] is None else f"(Some {qm(pre['H'])})"
+    l = "None" if pre["ldr"] is None else f"(Some {cq(frac(pre['ldr']))})"
+    return f"(Build_pre Q {H} {l})"
+
+def run_invp(inp):
+    """the inversion terms with a Preloads object that carries ANY regularization matrix of the right size (not the
+    assembled one) and / or any log-determinant: the preload branches of abstract.py"""
+    c = classes()
+    iv = inp["inv"]; pre = inp["pre"]
+    kw = {}
+    if pre["H"] is not None: kw["regularization_matrix"] = np.array(pre["H"], dtype=float)
+    if pre["ldr"] is not None: kw["log_det_regularization_matrix_term"] = float(pre["ldr"])
+    inv = make_inv(iv, preloads=c["Preloads"](**kw))
+    fp = inv_fingerprint(inv); Hb = None if pre["H"] is None else np.array(kw["regularization_matrix"], copy=True)
+    o = observe_inv(inv, iv)
+    # ln table: determinants of the matrices in force, restricted to the regularized parameters
+    reg, _, _, H, _ = inv_tables(iv)
+    if pre["H"] is not None: H = [[Fraction(x) for x in r] for r in pre["H"]]
+    FH = [[Fraction(iv["F"][i][j]) + H[i][j] for j in range(len(H))] for i in range(len(H))]
+    sub = lambda M: [[M[i][j] for j in reg] for i in reg]
+    dfh, dh = fdet(sub(FH)), fdet(sub(H))
+    tbl = ln_table([], (dfh, dh))
+    out = (f"(Build_invout {clist([cnat(x) for x in o['noreg']])} {qm(o['H'])} {qm(o['FH'])} {qm(o['Hred'])} {qm(o['FHred'])} "
+           f"{ql(o['sred'])} {cq(fq(o['regterm']))} {cq(fq(o['ldc']))} {cq(fq(o['ldr']))})")
+    coq = f"(KInvP {ctbl(tbl)} {cpre(pre)} {cinv(iv)} {out})"
+    py_ok = True; detail = []
+    if reg:
+        want = {"ldc": flog(dfh) if dfh > 0 else None, "ldr": pre["ldr"] if pre["ldr"] is not None else (flog(dh) if dh > 0 else None)}
+        for k, w in want.items():
+            if w is not None and not (math.isfinite(o[k]) and rel_close(o[k], w)):
+                py_ok = False; detail.append(f"{k}: implementation {o[k]}, expected {w}")
+    if inv_fingerprint_changed(inv, fp) or (Hb is not None and not np.array_equal(Hb, kw["regularization_matrix"])):
+        py_ok = False; detail.append("reading the inversion modified the caller's reconstruction / regularization / preloaded matrices in place")
+    return {"coq": coq, "out": o, "py_ok": py_ok, "nontrivial": True, "detail": "; ".join(detail) or None,
+            "kind": "invp/" + inv_kind(iv) + ("/H" if pre["H"] is not None else "") + ("/ldr" if pre["ldr"] is not None else "")}
+
 def run_invhist(inp):
     """several inversions that share the linear objects (and their regularization objects), the settings and the preloads
     object: read, re-read, another (F, s) on the same objects, other regularization flags with the same sizes"""
@@ -1069,7 +1112,7 @@ _COUNTS = {"impl_exceptions": 0}
 def run_case(inp):
     op = inp["op"]
     f = {"fit": run_fit, "inv": run_inv, "util": run_util, "compose": run_compose, "hist": run_hist, "invhist": run_invhist,
-         "cov": run_cov, "vis": run_vis, "utilc": run_utilc, "utilcov": run_utilcov}[op]
+         "invp": run_invp, "cov": run_cov, "vis": run_vis, "utilc": run_utilc, "utilcov": run_utilcov}[op]
     try:
         return f(inp)
     except Exception as e:   # the implementation refused an in-scope input: reported as a failing case
